@@ -6,7 +6,7 @@ from ..ops import *
 from .c04 import judge, spec_tensor, rand_hermitian_iop
 
 IMPORTS = ('From OFV Require Import Base.Cplx Base.Lin Sem.PauliSem Sem.FermiSem Sem.BoseSem Model.SymbolicOp Model.QubitOp Model.LadderOp '
-           'Model.NormalOrder Model.Program Check.DictEquiv Check.OpEquiv.\n')
+           'Model.NormalOrder Model.Conjugate Model.Program Check.DictEquiv Check.OpEquiv Thm.C07.Adjoint.\n')
 NEEDS = ['Thm/C03/CAR', 'Thm/C03/NormalOrderB', 'Check/OpEquiv']
 
 def coq_lop(terms, quad=False):
@@ -101,6 +101,27 @@ def run(ctx):
                 (model, coq_lop(out.terms, q), sem, cnat(len(ms)), cN(min(d, 6 if len(ms) < 3 else 4)), coq_lop(a, q), coq_lop(b, q)),
                 {'call': 'normal_ordered(%s)' % cls.__name__, 'hbar': hb, 'terms': {repr(t): repr(c) for t, c in op.terms.items()}}, key=repr((sorted(terms), hb)))
             if i < 1: ctx.sample({'part': kind + '_ops', 'hbar': hb, 'input': str(op), 'output': str(out)})
+    # ---- is_hermitian relies on normal ordering: operators Hermitian modulo the (anti)commutation relations but
+    #      spelled asymmetrically, fermionic and bosonic
+    for i in range(N(60, 400)):
+        boson = rng.random() < 0.5
+        cls = of.BosonOperator if boson else of.FermionOperator
+        bt = {}
+        for _ in range(rng.randint(1, 2)):
+            L = rng.choice([1, 2, 2, 3])
+            bt[tuple((rng.randrange(2), rng.randint(0, 1)) for _ in range(L))] = dyc(rng)
+        A_ = cls()
+        for t, c in bt.items(): A_ += cls(t, c)
+        k = rng.random()
+        if k < 0.5: B_ = of.normal_ordered(A_) + of.hermitian_conjugated(A_)
+        elif k < 0.7: B_ = cls('0 0^ 0^ 0' if boson else '0 0^', float(dy(rng) or 1.0)) + of.normal_ordered(A_) + of.hermitian_conjugated(A_)
+        elif k < 0.85: B_ = A_ + of.hermitian_conjugated(A_)
+        else: B_ = A_
+        if not exact_terms_ok(B_.terms) or not B_.terms: continue
+        v = of.is_hermitian(B_)
+        chk = ('bose_equiv_on bapply1 2 4 %s (hc_map %s)' if boson else 'fermi_equiv %s (hc_map %s)') % (coq_fop_terms(B_.terms), coq_fop_terms(B_.terms))
+        add('is_hermitian_via_normal_order', '(Bool.eqb %s (%s))' % (cbool(v), chk),
+            {'call': 'is_hermitian(%s)' % cls.__name__, 'terms': {repr(t): repr(c) for t, c in B_.terms.items()}, 'returned': v}, key=repr(B_.terms))
     # ---- InteractionOperator antisymmetrisation, chemist_ordered, reorder
     for i in range(N(60, 500)):
         n = rng.choice([2, 3, 4])
